@@ -592,11 +592,16 @@ func runHistory(c *core.Ctx, idx int, nn bool) {
 	if r.Chance(0.12) {
 		h.far = math.Pow(10, r.Range(6, 13))
 		c.Count("hist.with_far_outliers")
-	} else if r.Chance(0.12) {
+	} else if r.Chance(0.12) || nn && r.Chance(0.25) {
 		// the same grids at the ends of the float64 range (exact: a power of two): products of two
 		// coordinate differences underflow to zero, or sums of two coordinates overflow
 		if r.Bool() {
 			h.scale = math.Ldexp(1, -570)
+			if r.Bool() {
+				h.scale = math.Ldexp(1, -538) // squares of the differences are denormal: a digit or two of precision
+				h.float = h.float || r.Chance(0.7)
+				c.Count("hist.squares_of_differences_denormal")
+			}
 			h.sy = h.scale
 			c.Count("hist.coordinates_of_magnitude_1e-170")
 		} else {
@@ -847,6 +852,9 @@ func (h *hist) queryNN() {
 		nq = 250
 		h.loose = false
 		c.Count("nn.burst_after_loose_envelope")
+	}
+	if h.scale == math.Ldexp(1, -538) && nq == 6 {
+		nq = 40 // wrong answers at this scale are rare per query (a few in 10000)
 	}
 	xOnly := h.scale > 1 && h.sy == 1
 	if xOnly && nq == 6 {
